@@ -101,7 +101,23 @@ def range_bounds(b, byid):
                 nw = [c for c in pb['calls'] if re.search(r'RangeInclusive::<[^>]*>::new$', c['callee'])]
                 if len(nw) == 1 and len(nw[0]['args']) == 2:
                     cv = consts_of(pb)
-                    lo, hi = (cv.get(a.strip()) for a in nw[0]['args'])
+                    pdefs = {}
+                    for blk in pb['blocks']:
+                        for st in blk['stmts']:
+                            mm = re.match(r'^(_\d+) = (.*)$', st)
+                            if mm:
+                                pdefs.setdefault(mm.group(1), mm.group(2))
+
+                    def pval(opnd, d=0):
+                        # `const X`, or a local defined as a constant / as the single field of a constant newtype (`copy (_3.0: u64)`)
+                        opnd = opnd.strip()
+                        if opnd in cv:
+                            return cv[opnd]
+                        mm = re.match(r'^(?:move |copy )?\(?(_\d+)(?:\.0: [^)]*\))?$', opnd)
+                        if mm and d < 8 and mm.group(1) in pdefs:
+                            return pval(pdefs[mm.group(1)], d + 1)
+                        return None
+                    lo, hi = (pval(a) for a in nw[0]['args'])
                     return (lo, hi) if lo is not None and hi is not None else None
             return None
         m = re.match(r'^(?:move |copy |&|&mut |\(\*|\*)*(_\d+)\)?$', opnd)
